@@ -328,7 +328,9 @@ package packfile
 // objectsToPack: entries loaded as stored deltas (encodedDeltaObject) may lack
 // their base in the set being packed: whenever one was loaded, the delta chains
 // are fixed (fixAndBreakChains) before the list is handed on, so that no delta
-// is written without its base.
+// is written without its base. An id that is asked for several times gets one
+// entry: an entry is created only for an id that does not occur earlier in the
+// request (git index-pack refuses a pack with the same object twice).
 //gvc:func (*DeltaSelector).objectsToPack
 //gvc:  props C07
 //gvc:  theory int
@@ -337,5 +339,24 @@ package packfile
 //gvc:  results otps err
 //gvc:  loop 1 invariant pos: it1 >= 0
 //gvc:  loop 1 invariant plain: packWindow == 0 ==> calls("encodedDeltaObject") == 0
+//gvc:  loop 1 invariant seen: forall(a, 0, it1, has(seen, hashes[a]))
+//gvc:  sink newObjectToPack requires once: !exists(a, 0, it1, keyid(hashes[a]) == keyid(h))
 //gvc:  ensures fixed: err == nil && calls("encodedDeltaObject") >= 1 ==> calls("fixAndBreakChains") == 1 && lastres("fixAndBreakChains") == nil
+//gvc:end
+
+// fixAndBreakChainsOne recurses along the base links of stored deltas, which
+// come from several packs and may form a cycle. Termination argument (the
+// part that is checked: the call-site obligation on the recursive call): the
+// callee is never an entry whose base is already being fixed further up the
+// call chain (it is not in `visiting`) and the caller is in `visiting` during
+// the call, so the entries on the call chain are pairwise distinct and their
+// number is bounded by the number of entries; an entry that would close a
+// cycle is undeltified instead (properties C07, C53: no unbounded recursion).
+//gvc:func (*DeltaSelector).fixAndBreakChainsOne
+//gvc:  props C07 C53
+//gvc:  theory int
+//gvc:  opt coarse
+//gvc:  opt frame args
+//gvc:  requires nn: visiting != nil
+//gvc:  sink fixAndBreakChainsOne requires progress: !has(visiting, arg1) && has(visiting, otp) && arg2 == visiting
 //gvc:end
